@@ -19,8 +19,8 @@ ASSUMPTIONS = [
     'claim restricted to well-formed state (create event with its creator / m.federate fields typed correctly, state member / join-rules / power-level '
     'contents typed correctly, no string-typed power levels in state from v10, a join-rules event exists when the join rule is consulted); the incoming '
     'event content may be malformed',
-    'outside the claim: m.room.member invites carrying `third_party_invite` (signature verification), the content checks of an incoming m.room.power_levels '
-    'event, m.room.create itself, error messages',
+    'outside the claim: m.room.member invites carrying `third_party_invite` (signature verification), m.room.create itself, error messages '
+    '(an incoming m.room.power_levels event is covered by the two power_levels families)',
     'below the seam (library models): serde_json parsing of event contents, RoomPowerLevelsEvent::{get_as_int, get_as_int_map, users}, Event trait accessors, tracing',
 ]
 
